@@ -27,9 +27,13 @@ def load_known():
     """known_findings.json (committed) plus per-property files under known_findings.d/ (same format)."""
     out = {"open": [], "fixed": []}
     files = ([KNOWN] if KNOWN.exists() else []) + sorted((ROOT / "known_findings.d").glob("*.json"))
+    seen = set()
     for f in files:
         d = json.loads(f.read_text())
-        out["open"] += d.get("open", [])
+        for k in d.get("open", []):
+            if (k.get("property"), k.get("key")) not in seen:
+                seen.add((k.get("property"), k.get("key")))
+                out["open"].append(k)
         out["fixed"] += d.get("fixed", [])
     return out
 
